@@ -740,7 +740,15 @@ static int run_cmd(struct ctx *c, char **t, int nt) {
       econf_file *kf = NULL; e = econf_readFile(&kf, pth, "=", "#"); char *gp = e ? NULL : econf_getPath(kf);
       fprintf(o, "{\"op\":\"long\",\"kind\":\"%s\",\"len\":%zu,\"api\":\"readFile+getPath\",\"rc\":\"%s\",\"out_len\":%zu,\"head_ok\":%s,\"tail_ok\":%s,\"os_ok\":%s}\n", kind, len, ename(e),
               gp ? strlen(gp) - strlen(dir) - strlen("/p.conf.d/") : 0, (gp && !strcmp(gp, pth)) ? "true" : "false", (gp && !strcmp(gp, pth)) ? "true" : "false", w == 0 ? "true" : "false");
-      free(gp); econf_freeFile(kf); kf = NULL;
+      free(gp);
+      /* ... and WRITTEN under a name of that length into another directory, then read back */
+      if (kf) { char *wd; if (asprintf(&wd, "%s/written", dir) < 0) wd = NULL; mkdirs(wd);
+        econf_err we = econf_writeFile(kf, wd, name); char *wp; if (asprintf(&wp, "%s/%s", wd, name) < 0) wp = NULL;
+        econf_file *k2 = NULL; char *v2 = NULL; econf_err re = we ? we : econf_readFile(&k2, wp, "=", "#"); econf_err g2 = re ? re : econf_getStringValue(k2, NULL, "k", &v2);
+        fprintf(o, "{\"op\":\"long\",\"kind\":\"%s\",\"len\":%zu,\"api\":\"writeFile+readFile\",\"rc\":\"%s\",\"out_len\":%zu,\"head_ok\":%s,\"tail_ok\":%s,\"os_ok\":%s}\n", kind, len, ename(g2),
+                len, (v2 && !strcmp(v2, "1")) ? "true" : "false", (v2 && !strcmp(v2, "1")) ? "true" : "false", w == 0 ? "true" : "false");
+        free(v2); econf_freeFile(k2); free(wp); free(wd); }
+      econf_freeFile(kf); kf = NULL;
       char *etc; if (asprintf(&etc, "%s", dir) < 0) etc = NULL;
       e = econf_readDirs(&kf, "/nonexistent-verif", etc, "p", "conf", "=", "#"); char *v = NULL; econf_err ge = e ? e : econf_getStringValue(kf, NULL, "k", &v);
       fprintf(o, "{\"op\":\"long\",\"kind\":\"%s\",\"len\":%zu,\"api\":\"readDirs(drop-in)\",\"rc\":\"%s\",\"out_len\":%zu,\"head_ok\":%s,\"tail_ok\":%s,\"os_ok\":%s}\n", kind, len, ename(ge),
